@@ -5,6 +5,7 @@ sees the rendered file.  Only valid workflows are generated (validation is C04: 
 """
 import hashlib
 import json
+import os
 
 SHAPES = ["list", "list", "str", "nested", "dict", "dict_empty"]
 STYLES = ["plain", "plain", "plain", "dot", "dotdot", "abs"]
@@ -23,8 +24,12 @@ class TModel:
         self.protect = []  # [(path, style)]
         self.version = 0
         self.spec_extra = ""
+        self.spec_body = None  # explicit spec text (C10); None => the default one-liner
+        self.wd = ""  # working directory relative to the project ("" or a sub-directory; template targets only)
 
     def spec(self):
+        if self.spec_body is not None:
+            return self.spec_body
         return f"echo {self.name} version {self.version}{self.spec_extra}\n"
 
     def spec_sha1(self):
@@ -33,7 +38,7 @@ class TModel:
     def to_json(self):
         return dict(name=self.name, inputs=self.inputs, outputs=self.outputs, in_shape=self.in_shape,
                     out_shape=self.out_shape, style=self.style, options=self.options, tpl_options=self.tpl_options,
-                    protect=self.protect, version=self.version, spec_extra=self.spec_extra)
+                    protect=self.protect, version=self.version, spec_extra=self.spec_extra, spec_body=self.spec_body, wd=self.wd)
 
     @classmethod
     def from_json(cls, d):
@@ -46,6 +51,8 @@ class TModel:
         t.protect = [tuple(p) for p in d["protect"]]
         t.version = d["version"]
         t.spec_extra = d.get("spec_extra", "")
+        t.spec_body = d.get("spec_body")
+        t.wd = d.get("wd", "")
         return t
 
 
@@ -139,7 +146,9 @@ class WModel:
 
 
 # ---- rendering -------------------------------------------------------------------------------
-def spell(path, style, proj):
+def spell(path, style, proj, wd=""):
+    if style not in ("abs", "abs_dot") and wd:
+        path = os.path.relpath(path, wd)
     if style == "dot":
         return "./" + path
     if style == "dotdot":
@@ -177,9 +186,10 @@ def render(model: WModel, proj: str) -> str:
     out = ["import os", "from gwf import Workflow, AnonymousTarget", "",
            f"gwf = Workflow(defaults={model.defaults!r})", ""]
     for t in model.targets.values():
-        ins = shape([spell(p, t.style.get(p, "plain"), proj) for p in t.inputs], t.in_shape)
-        outs = shape([spell(p, t.style.get("out:" + p, t.style.get(p, "plain")), proj) for p in t.outputs], t.out_shape)
-        prot = [spell(p, s, proj) for p, s in t.protect]
+        ins = shape([spell(p, t.style.get(p, "plain"), proj, t.wd) for p in t.inputs], t.in_shape)
+        outs = shape([spell(p, t.style.get("out:" + p, t.style.get(p, "plain")), proj, t.wd) for p in t.outputs],
+                     t.out_shape)
+        prot = [spell(p, s, proj, t.wd) for p, s in t.protect]
         if t.tpl_options is None:
             kw = "".join(f", {k}={v!r}" for k, v in t.options.items())
             out.append(f"gwf.target({t.name!r}, inputs={ins!r}, outputs={outs!r}, protect={prot!r}{kw}) << {t.spec()!r}")
@@ -187,7 +197,8 @@ def render(model: WModel, proj: str) -> str:
             kw = "".join(f", {k}={v!r}" for k, v in t.options.items())
             out.append(f"def tpl_{t.name.replace('.', '_')}():")
             out.append(f"    return AnonymousTarget(inputs={ins!r}, outputs={outs!r}, options={t.tpl_options!r}, "
-                       f"working_dir=gwf.working_dir, protect={prot!r}, spec={t.spec()!r})")
+                       f"working_dir={'gwf.working_dir' if not t.wd else 'os.path.join(gwf.working_dir, %r)' % t.wd}, "
+                       f"protect={prot!r}, spec={t.spec()!r})")
             out.append(f"gwf.target_from_template({t.name!r}, tpl_{t.name.replace('.', '_')}(){kw})")
     return "\n".join(out) + "\n"
 
@@ -235,6 +246,8 @@ def new_target(m, rng, produced=None, option_pool=None, p_no_outputs=0.1, subdir
                 t.options[k] = rng.pick(vals)
     if templates and rng.chance(0.2):
         t.tpl_options = {}
+        if subdir and rng.chance(0.4):
+            t.wd = "d"
         if option_pool:
             for k, vals in option_pool.items():
                 if rng.chance(0.25):
